@@ -236,6 +236,22 @@ func copyRegularFile(src, dst string, perm os.FileMode) error {
 	return dstFile.Close()
 }
 
+// checkCopyMovePaths refuses to copy or move a resource onto itself, into one
+// of its own descendants or onto one of its ancestors. Such a request would
+// remove the source or the destination before the operation is carried out.
+func checkCopyMovePaths(srcPath, dstPath string) error {
+	if srcPath == dstPath {
+		return NewHTTPError(http.StatusForbidden, fmt.Errorf("webdav: source and destination are the same resource"))
+	}
+	sep := string(filepath.Separator)
+	srcDir := strings.TrimSuffix(srcPath, sep) + sep
+	dstDir := strings.TrimSuffix(dstPath, sep) + sep
+	if strings.HasPrefix(dstPath, srcDir) || strings.HasPrefix(srcPath, dstDir) {
+		return NewHTTPError(http.StatusForbidden, fmt.Errorf("webdav: source and destination contain one another"))
+	}
+	return nil
+}
+
 func (fs LocalFileSystem) Copy(ctx context.Context, src, dst string, options *CopyOptions) (created bool, err error) {
 	srcPath, err := fs.localPath(src)
 	if err != nil {
@@ -254,6 +270,10 @@ func (fs LocalFileSystem) Copy(ctx context.Context, src, dst string, options *Co
 		return false, errFromOS(err)
 	}
 	srcPerm := srcInfo.Mode() & os.ModePerm
+
+	if err := checkCopyMovePaths(srcPath, dstPath); err != nil {
+		return false, err
+	}
 
 	if _, err := os.Stat(dstPath); err != nil {
 		if !os.IsNotExist(err) {
@@ -309,6 +329,15 @@ func (fs LocalFileSystem) Move(ctx context.Context, src, dst string, options *Mo
 	}
 	dstPath, err := fs.localPath(dst)
 	if err != nil {
+		return false, err
+	}
+
+	// The source must exist before the destination is touched
+	if _, err := os.Stat(srcPath); err != nil {
+		return false, errFromOS(err)
+	}
+
+	if err := checkCopyMovePaths(srcPath, dstPath); err != nil {
 		return false, err
 	}
 
